@@ -19,7 +19,9 @@ def plan(tier, seed):
     cases = _sim.plan_profiles(tier, seed, WEIGHTS, 4000, 60000)
     n = 1500 if tier == "quick" else 40000
     cases += [{"mode": "live_walk", "seed": seed, "idx": i, "cfg": {"n": 1 + i % 3, "async": i % 4 == 3}, "len": 9 + i % 6} for i in range(n)]
-    return cases + [{"mode": "paper_walk", "seed": seed, "idx": i, "len": 40 + i % 50} for i in range(300 if tier == "quick" else 6000)]
+    cases += [{"mode": "paper_walk", "seed": seed, "idx": i, "len": 40 + i % 50} for i in range(300 if tier == "quick" else 6000)]
+    # adoptions from the order stream for strategies registered at different times (before the first update, between updates)
+    return cases + [{"mode": "adoption", "seed": seed, "idx": i} for i in range(200 if tier == "quick" else 4000)]
 
 
 def build(desc):
@@ -40,7 +42,71 @@ def build(desc):
     return case, snaps
 
 
+def run_adoption(desc):
+    """A (re)started instance adopts the exchange's bets from order-stream snapshots; strategies are registered before the first
+    snapshot and between snapshots; every bet of a registered strategy is in the blotter and in every view exactly once."""
+    from .. import livecases, live
+
+    rng = simgen.mk_rng(desc["seed"], desc["idx"], 151)
+    out = O.Out(PROPERTY)
+    first = [livecases.make_strategy("E%d" % i) for i in range(rng.randint(1, 2))]
+    tr, w = livecases.new_world(first, n_clients=rng.choice((1, 2)))
+    try:
+        mid = w.add_market_file(livecases.static_market())
+        w.next_book(mid)
+        ex = w.exchange
+        twins = {}
+        expected = []
+
+        def bets_for(st, n):
+            tw = twins.setdefault(st.name, livecases.make_strategy(st.name))
+            for _ in range(n):
+                sel, hc = rng.choice(((701, 0), (702, 0), (704, -1.5)))
+                o = livecases.make_order(tw, mid, sel=sel, handicap=hc, side=rng.choice(("BACK", "LAY")), price=rng.choice((2.0, 3.0)), size=rng.choice((2.0, 5.0)))
+                b = ex._new_bet(mid, o.create_place_instruction(), None)
+                if rng.random() < 0.3:
+                    ex.fill(b["betId"], b["sizeRemaining"] if rng.random() < 0.5 else 1.0)
+                expected.append((st, o.id, b["betId"]))
+
+        for st in first:
+            bets_for(st, rng.randint(1, 3))
+        # a bet of a strategy nobody registered
+        ex._new_bet(mid, {"selectionId": 703, "side": "BACK", "orderType": "LIMIT", "handicap": 0, "customerOrderRef": "0123456789abc-111111111111111111", "limitOrder": {"price": 4.0, "size": 3.0, "persistenceType": "LAPSE"}}, None)
+        w.snapshot()
+        for r_ in range(rng.randint(1, 3)):
+            late = livecases.make_strategy("L%d" % r_)
+            w.add_strategy(late)
+            bets_for(late, rng.randint(1, 3))
+            if rng.random() < 0.5:
+                bets_for(rng.choice(first), 1)
+            w.snapshot()
+            if rng.random() < 0.3:
+                w.snapshot()
+        m = w.market(mid)
+        tr.framework = w.fw
+        observers.blotter_coherence(tr, m, "adoption")
+        for st, oid, bet_id in expected:
+            out.rule("adoption")
+            got = [o for o in m.blotter if str(o.bet_id) == str(bet_id)]
+            if len(got) != 1 or got[0].trade.strategy is not st or got[0].id != oid:
+                out.v("registered-strategy-bet-not-in-blotter-once", {"late_strategy": st.name.startswith("L"), "count": min(len(got), 2)}, bet_id=bet_id, strategy=st.name)
+            elif sum(1 for o in m.blotter.strategy_orders(st) if o is got[0]) != 1 or m.blotter.get_order_bet_id(bet_id) is not got[0]:
+                out.v("adopted-order-missing-from-view", {"late_strategy": st.name.startswith("L")}, bet_id=bet_id, strategy=st.name)
+        if len(m.blotter) != len(expected):
+            out.v("blotter-holds-unknown-or-missing-orders", {"mode": "adoption"}, blotter=len(m.blotter), expected=len(expected))
+        out.violations += [dict(v, tags=dict(v["tags"], exec="Betfair")) for v in tr.online if v["property"] == PROPERTY]
+        for k, v in tr.counters.items():
+            if k.startswith("rule_"):
+                out.c(k, v)
+        out.d("c15adopt:%d:%d" % (len(first), min(len(expected), 10)))
+    finally:
+        livecases.finish(w)
+    return out.result()
+
+
 def run(desc):
+    if desc.get("mode") == "adoption":
+        return run_adoption(desc)
     if desc.get("mode") == "paper_walk":
         from .. import paperwalk
 
